@@ -545,7 +545,9 @@ class ModelSpec:
                 running `ModelSpec.update(**attr_overrides)`.
         """
         if attr_overrides:
-            return self.update(**attr_overrides).get_model_matrix(data, context=context)
+            return self.update(**attr_overrides).get_model_matrix(
+                data, context=context, drop_rows=drop_rows
+            )
         return cast(
             "ModelMatrix",
             self.get_materializer(data, context=context).get_model_matrix(
